@@ -1016,7 +1016,12 @@ pub fn builtin_text(t: &mut Tape, spec: &GSpec, term_of_core: &[usize], input: &
 /// unproductive nonterminals), decorated with `? * +`, groups and `#[inline]`.
 pub fn gen_cfg(t: &mut Tape) -> (GSpec, Vec<&'static str>) {
     let mut tags = vec![];
-    let nterms = 2 + t.below(5);
+    // the template family is drawn first: the LR(1)-not-LALR(1) family wants six terminals
+    let tpl = t.weighted(&[120, 40, 18, 14, 14, 14, 16, 20]);
+    // "clean" variant: the random part shrinks to a start symbol that only
+    // refers to the template, so acceptance depends on the template alone
+    let clean = tpl != 0 && t.chance(128);
+    let nterms = if tpl == 1 { 6 } else { 2 + t.below(5) };
     let terms: Vec<TermSpec> = (0..nterms as u32).map(|k| extern_term(k, false)).collect();
     let mut spec = GSpec { lexer: Lexer::Extern { loc: LocTy::Usize }, terms, nts: vec![], declare_error: true, cx_name: "cx".into(), lt_name: "cx".into(), extra: None };
     let n_nts = 1 + t.below(6);
@@ -1084,7 +1089,14 @@ pub fn gen_cfg(t: &mut Tape) -> (GSpec, Vec<&'static str>) {
     }
     // template families, spliced in as extra nonterminals referenced from N0
     // (or made `pub` on their own)
-    let tpl = t.weighted(&[120, 40, 18, 14, 14, 14, 16, 20]);
+    if clean {
+        tags.push("clean-template");
+        for ni in 0..n_nts {
+            spec.nts[ni].alts.clear();
+            let lead = SymKind::T(ni % nterms);
+            spec.nts[ni].alts.push(AltSpec::new(vec![SymSpec::plain(lead)], Act::Default));
+        }
+    }
     let tm = |i: usize| SymKind::T(i % nterms);
     let base = spec.nts.len();
     let mut add = |spec: &mut GSpec, name: &str, alts: Vec<Vec<SymKind>>| -> usize {
